@@ -15,6 +15,7 @@
 package common
 
 import (
+	"github.com/dappledger/AnnChain/gemmill/verifhook"
 	"bufio"
 	"fmt"
 	"io/ioutil"
@@ -102,17 +103,26 @@ func WriteFileAtomic(filePath string, newBytes []byte, mode os.FileMode) error {
 		if err != nil {
 			return fmt.Errorf("Could not read file %v. %v", filePath, err)
 		}
+		if err := verifhook.DurableErr("WriteFileAtomic.bak", []byte(filePath)); err != nil {
+			return err
+		}
 		err = ioutil.WriteFile(filePath+".bak", fileBytes, mode)
 		if err != nil {
 			return fmt.Errorf("Could not write file %v. %v", filePath+".bak", err)
 		}
 	}
 	// Write newBytes to filePath.new
+	if err := verifhook.DurableErr("WriteFileAtomic.new", []byte(filePath)); err != nil {
+		return err
+	}
 	err := ioutil.WriteFile(filePath+".new", newBytes, mode)
 	if err != nil {
 		return fmt.Errorf("Could not write file %v. %v", filePath+".new", err)
 	}
 	// Move filePath.new to filePath
+	if err := verifhook.DurableErr("WriteFileAtomic.rename", []byte(filePath)); err != nil {
+		return err
+	}
 	err = os.Rename(filePath+".new", filePath)
 	return err
 }
